@@ -5,11 +5,14 @@
 package main
 
 import (
+	"crypto/sha256"
 	"encoding/hex"
 	"encoding/json"
 	"fmt"
+	"math/big"
 	"math/rand/v2"
 	"os"
+	"unsafe"
 
 	"github.com/onflow/crypto"
 	"github.com/onflow/crypto/hash"
@@ -37,6 +40,15 @@ var out []line
 
 func emit(op string, in []byte, o []byte) {
 	out = append(out, line{op, hex.EncodeToString(in), hex.EncodeToString(o)})
+}
+// emitx: the line's key is a short digest of the input (long inputs would only be parsed by Coq, not used)
+func emitx(op string, in []byte, o []byte) {
+	d := sha256.Sum256(in)
+	if len(o) > 64 { // long outputs are compared through their digest
+		od := sha256.Sum256(o)
+		o = append([]byte{byte(len(o) >> 8), byte(len(o))}, od[:]...)
+	}
+	emit(op, append([]byte{byte(len(in) >> 8), byte(len(in))}, d[:8]...), o)
 }
 func emits(op string, in []byte, s string) { out = append(out, line{op, hex.EncodeToString(in), s}) }
 
@@ -87,6 +99,9 @@ func main() {
 			}
 		}
 	}
+	hashExtras(r)
+	prgExtras(r)
+	ecdsaExtras(r)
 	for i := 0; i < in.N; i++ {
 		// ---- hashing ----
 		lens := []int{0, 1, 55, 56, 64, 103, 104, 105, 135, 136, 137, 272, 1000}
@@ -178,5 +193,194 @@ func main() {
 	enc := json.NewEncoder(os.Stdout)
 	for _, l := range out {
 		_ = enc.Encode(l)
+	}
+}
+
+// unaligned returns a copy of b whose first byte sits at an address = off (mod 8)
+func unaligned(b []byte, off int) []byte {
+	buf := make([]byte, len(b)+16)
+	o := 0
+	for ; o < 8; o++ {
+		if (uintptr(unsafe.Pointer(&buf[o]))&7) == uintptr(off&7) {
+			break
+		}
+	}
+	copy(buf[o:], b)
+	return buf[o : o+len(b)]
+}
+
+// hashExtras: the entry points and write patterns the main loop does not reach: one-shot helpers,
+// byte-by-byte and 8-byte-chunk writes from unaligned memory, objects reused after SumHash / ComputeHash /
+// Reset, a long message, KMAC128 through SumHash with split writes, output sizes around the cSHAKE rate
+// and keys whose encoding fills whole blocks.
+func hashExtras(r *rand.Rand) {
+	names := []string{"sha3_256", "sha3_384", "keccak_256", "sha2_256", "sha2_384"}
+	mks := []func() hash.Hasher{hash.NewSHA3_256, hash.NewSHA3_384, hash.NewKeccak_256, hash.NewSHA2_256, hash.NewSHA2_384}
+	for _, l := range []int{0, 1, 8, 63, 64, 135, 136, 137, 272, 273, 500} {
+		m := rb(r, l)
+		var o3, o2 [32]byte
+		hash.ComputeSHA3_256(&o3, unaligned(m, l))
+		hash.ComputeSHA2_256(&o2, unaligned(m, l+3))
+		emit("sha3_256", m, o3[:])
+		emit("sha2_256", m, o2[:])
+	}
+	long := rb(r, 3000+r.IntN(64))
+	for hi, mk := range mks {
+		// "_x": compared between the builds only (the specification check in Coq is applied to the
+		// main-loop lines and to the one-shot helpers above; it would cost a minute on these)
+		name := names[hi] + "_x"
+		for _, l := range []int{1, 103, 104, 136, 137, 209, 272} {
+			m := rb(r, l+r.IntN(2))
+			h := mk()
+			for i := range m { // byte by byte, every address alignment
+				_, _ = h.Write(unaligned(m[i:i+1], i))
+			}
+			emitx(name, m, h.SumHash())
+			// the same object again without Reset: ComputeHash, then Reset + 8-byte chunks from odd addresses
+			emitx(name, m, h.ComputeHash(unaligned(m, 1)))
+			emitx(name, m, h.ComputeHash(unaligned(m, 5)))
+			h.Reset()
+			for i := 0; i < len(m); i += 8 {
+				e := i + 8
+				if e > len(m) {
+					e = len(m)
+				}
+				_, _ = h.Write(unaligned(m[i:e], 3))
+			}
+			_, _ = h.Write(nil)
+			emitx(name, m, h.SumHash())
+		}
+		h := mk()
+		_, _ = h.Write(long[:1])
+		_, _ = h.Write(unaligned(long[1:], 7))
+		emitx(name, long, h.SumHash())
+		emitx(name, long, mk().ComputeHash(unaligned(long, 2)))
+	}
+	for _, kl := range []int{16, 32, 163, 331} {
+		for _, ol := range []int{0, 1, 32, 167, 168, 169, 400} {
+			key, cust, m := rb(r, kl), rb(r, r.IntN(40)), rb(r, 150+r.IntN(400))
+			k, err := hash.NewKMAC_128(key, cust, ol)
+			if err != nil {
+				panic(err)
+			}
+			id := append(append(append([]byte{byte(kl), byte(kl >> 8), byte(ol), byte(ol >> 8), byte(len(cust))}, key...), cust...), m...)
+			cut := r.IntN(len(m))
+			_, _ = k.Write(unaligned(m[:cut], 1))
+			_, _ = k.Write(unaligned(m[cut:], 6))
+			emitx("kmac128_sum", id, k.SumHash())
+			emitx("kmac128", id, k.ComputeHash(unaligned(m, 3)))
+			_, _ = k.Write(m[:1]) // the stream continues after SumHash
+			emitx("kmac128_sum_more", id, k.SumHash())
+			k.Reset()
+			_, _ = k.Write(m)
+			emitx("kmac128_sum", id, k.SumHash())
+		}
+	}
+}
+
+// prgExtras: read sizes on both paths, Store / Restore, and every derived sampler
+func prgExtras(r *rand.Rand) {
+	for i := 0; i < 4; i++ {
+		seed, pc := rb(r, 32), rb(r, []int{0, 1, 11, 12}[i])
+		id := append(append([]byte{}, seed...), pc...)
+		prg, err := random.NewChacha20PRG(seed, pc)
+		if err != nil {
+			panic(err)
+		}
+		var all []byte
+		for _, n := range []int{0, 1, 63, 64, 65, 128, 129, 1000} {
+			buf := make([]byte, n)
+			prg.Read(buf)
+			all = append(all, buf...)
+		}
+		if i == 0 {
+			emit("prg_read", id, all) // Reads concatenate: checked against the keystream from position 0
+		} else {
+			emitx("prg_read_x", id, all)
+		}
+		st := prg.Store()
+		emit("prg_store", id, st)
+		p2, err := random.RestoreChacha20PRG(st)
+		if err != nil {
+			panic(err)
+		}
+		var sw [][2]int
+		sp, e1 := p2.SubPermutation(30, 7)
+		e2 := p2.Shuffle(9, func(a, b int) { sw = append(sw, [2]int{a, b}) })
+		e3 := p2.Samples(1<<40+3, 4, func(a, b int) { sw = append(sw, [2]int{a, b}) })
+		pm, e4 := p2.Permutation(300)
+		emits("prg_samplers", id, fmt.Sprint(sp, e1, sw, e2, e3, pm, e4, p2.UintN(257), p2.UintN(1<<63+5), p2.UintN(1)))
+		emit("prg_store", id, p2.Store())
+		buf := make([]byte, 70)
+		p2.Read(buf)
+		emit("prg_read_after_samplers", id, buf)
+	}
+}
+
+// ecdsaExtras: deterministic parts of ECDSA beyond key generation: boundary scalars through the decoders,
+// compressed encodings, Sign -> Verify round trips under hashers of every admissible size (verdict only,
+// signing is randomised), malformed signatures.
+func ecdsaExtras(r *rand.Rand) {
+	orders := map[crypto.SigningAlgorithm]string{
+		crypto.ECDSAP256:      "ffffffff00000000ffffffffffffffffbce6faada7179e84f3b9cac2fc632551",
+		crypto.ECDSASecp256k1: "fffffffffffffffffffffffffffffffebaaedce6af48a03bbfd25e8cd0364141",
+	}
+	kmac, _ := hash.NewKMAC_128(rb(r, 16), nil, 64)
+	hashers := []hash.Hasher{hash.NewSHA2_256(), hash.NewSHA2_384(), hash.NewSHA3_256(), hash.NewSHA3_384(), hash.NewKeccak_256(), kmac}
+	for _, alg := range []crypto.SigningAlgorithm{crypto.ECDSAP256, crypto.ECDSASecp256k1} {
+		n, _ := new(big.Int).SetString(orders[alg], 16)
+		for _, d := range []int64{-2, -1, 0, 1} {
+			for _, base := range []*big.Int{n, big.NewInt(2), new(big.Int).Lsh(big.NewInt(1), 255)} {
+				b := new(big.Int).Add(base, big.NewInt(d)).FillBytes(make([]byte, 32))
+				sk, err := crypto.DecodePrivateKey(alg, b)
+				if err != nil {
+					emits(fmt.Sprintf("ecdsa_sk_decode_%d", alg), b, "error")
+					continue
+				}
+				emit(fmt.Sprintf("ecdsa_sk_decode_%d", alg), b, append(sk.Encode(), sk.PublicKey().Encode()...))
+			}
+		}
+		sk, err := crypto.GeneratePrivateKey(alg, rb(r, 40))
+		if err != nil {
+			panic(err)
+		}
+		pk := sk.PublicKey()
+		pc := pk.EncodeCompressed()
+		pk2, err := crypto.DecodePublicKeyCompressed(alg, pc)
+		if err != nil {
+			emits(fmt.Sprintf("ecdsa_pkc_roundtrip_%d", alg), pc, "error")
+		} else {
+			emit(fmt.Sprintf("ecdsa_pkc_roundtrip_%d", alg), pc, pk2.Encode())
+		}
+		flip := append([]byte{}, pc...)
+		flip[0] ^= 1 // the other square root
+		if pk3, err := crypto.DecodePublicKeyCompressed(alg, flip); err != nil {
+			emits(fmt.Sprintf("ecdsa_pkc_roundtrip_%d", alg), flip, "error")
+		} else {
+			emit(fmt.Sprintf("ecdsa_pkc_roundtrip_%d", alg), flip, pk3.Encode())
+		}
+		m := rb(r, 50)
+		for hi, h := range hashers {
+			sig, err := sk.Sign(m, h)
+			if err != nil {
+				emits(fmt.Sprintf("ecdsa_roundtrip_%d", alg), []byte{byte(hi)}, "sign error")
+				continue
+			}
+			ok, err := pk.Verify(sig, m, h)
+			ok2, _ := pk.Verify(sig, append([]byte{1}, m...), h)
+			emits(fmt.Sprintf("ecdsa_roundtrip_%d", alg), []byte{byte(hi)}, fmt.Sprint(len(sig), ok, err == nil, ok2))
+		}
+		good, _ := sk.Sign(m, hashers[0])
+		nb := n.FillBytes(make([]byte, 32))
+		zero := make([]byte, 32)
+		for bi, bad := range [][]byte{
+			append(append([]byte{}, zero...), good[32:]...), append(append([]byte{}, good[:32]...), zero...),
+			append(append([]byte{}, nb...), good[32:]...), append(append([]byte{}, good[:32]...), nb...),
+			good[:63], append(append([]byte{}, good...), 0), nil, make([]byte, 64),
+		} {
+			ok, err := pk.Verify(bad, m, hashers[0])
+			tag := []byte{byte(bi), byte(len(bad))} // (the signature bytes are randomised: not part of the line's key)
+			emits(fmt.Sprintf("ecdsa_verify_malformed_%d", alg), tag, fmt.Sprint(ok, err == nil))
+		}
 	}
 }
